@@ -1,0 +1,25 @@
+//go:build verif
+
+// Contracts for the directory repository, read by /verif/govc.
+package dir
+
+// New registers every configured root under its cleaned path (the path every later lookup uses: a
+// directory re-registered after deletions is found again only if the root it names is a key that was
+// registered here), and fails when a root can be neither read nor created.
+//@ func New
+//@   modifies mem[string], model.Dir.*, map[string]model.Dir, map[string]uint64
+//@   ensures  roots: result1 == nil ==> result0 != nil && len(result0.roots) == len(rootDirs) &&
+//@                      forall i int :: 0 <= i && i < len(rootDirs) ==> result0.roots[i] == pathClean(old(rootDirs[i]))
+//@ loop New#1
+//@   invariant idx:   -1 <= rangeindex && rangeindex + 1 <= len(rootDirs)
+//@   decreases len(rootDirs) - rangeindex
+//@   invariant same:  r.roots == rootDirs
+//@   invariant done:  forall j int :: 0 <= j && j <= rangeindex ==> rootDirs[j] == pathClean(old(rootDirs[j]))
+//@   invariant todo:  forall j int :: rangeindex < j && j < len(rootDirs) ==> rootDirs[j] == old(rootDirs[j])
+//@ loop New#2
+//@   invariant idx:   -1 <= rangeindex && rangeindex + 1 <= len(entries)
+//@   decreases len(entries) - rangeindex
+//@   invariant same:  r.roots == rootDirs
+//@   invariant done:  forall j int :: 0 <= j && j <= i ==> rootDirs[j] == pathClean(old(rootDirs[j]))
+//@   invariant todo:  forall j int :: i < j && j < len(rootDirs) ==> rootDirs[j] == old(rootDirs[j])
+//@   invariant outer: 0 <= i && i < len(rootDirs)
